@@ -270,9 +270,8 @@ def shrink(case):
     if len(cb) > 2:
         for i in range(len(cb)):
             yield dict(case, cb=cb[:i] + cb[i + 1:], sched=[x - (1 if x > i else 0) for x in sched if x != i])
-    if sched:
-        yield dict(case, sched=sched[: len(sched) // 2])
-        yield dict(case, sched=sched[:-1])
+    # the label list is kept: which interleaving is reached depends on it (and a shorter one makes the
+    # failure timing-dependent), a replay should poll exactly as the failing run did
 
 
 def distribution(cases, impl):
